@@ -140,6 +140,8 @@ pub struct Outcome {
     pub stall_steps: u64,
     /// SitePark strategy: how often a thread was descheduled at a selected site
     pub site_parks: u64,
+    /// how often a thread was found asleep in something the simulator does not own (and the run went on without it)
+    pub foreign_blocks: u64,
     /// >= 2 threads existed and at least one context switch happened at a non-blocking point
     pub preemptions: u64,
     pub trace: Vec<TraceEv>,
@@ -155,6 +157,9 @@ pub enum Wake {
 enum Status {
     Runnable,
     Blocked { key: u64, deadline: Option<u64> },
+    /// asleep in something the simulator does not own (a lock it has no shim for, held by a descheduled
+    /// simulated thread or re-entered by this very thread): found by the monitor, the baton was taken away
+    Foreign,
     Finished,
 }
 
@@ -169,6 +174,8 @@ struct ThreadInfo {
     priority: i64,
     consecutive: u64,
     last_site: u64,
+    /// kernel thread id (for the monitor: is the baton holder asleep?)
+    os_tid: i32,
 }
 
 struct State {
@@ -206,6 +213,8 @@ struct State {
     /// SitePark: (thread, not scheduled before this choice index)
     parked: Vec<(Tid, u64)>,
     site_parks: u64,
+    /// how often the monitor found the baton holder asleep outside the simulator and moved on without it
+    foreign_blocks: u64,
 }
 
 pub(crate) struct Sim {
@@ -297,6 +306,51 @@ pub fn current_tid() -> Option<Tid> {
 impl Sim {
     fn lock(&self) -> MutexGuard<'_, State> {
         self.st.lock().unwrap_or_else(|e| e.into_inner())
+    }
+
+    /// Called by the running thread before a choice: every thread that was found asleep outside the simulator is
+    /// either still asleep there, or - if the running thread has just released what it was waiting for - on its way to
+    /// `enter`; wait (in real time) until each of them is one or the other, so that the set of runnable threads at
+    /// this choice does not depend on how fast the woken thread gets to its next scheduling point.
+    fn settle_foreign<'a>(&'a self, mut st: MutexGuard<'a, State>) -> MutexGuard<'a, State> {
+        loop {
+            let pending: Vec<i32> = st.threads.iter().filter(|t| matches!(t.status, Status::Foreign)).map(|t| t.os_tid).collect();
+            if pending.is_empty() {
+                return st;
+            }
+            // (read /proc without the state lock: a woken thread that waits for this lock is asleep too)
+            drop(st);
+            let all_asleep = pending.iter().all(|t| os_thread_asleep(*t));
+            if !all_asleep {
+                std::thread::sleep(std::time::Duration::from_micros(200));
+            }
+            st = self.lock();
+            if all_asleep {
+                let now: Vec<i32> = st.threads.iter().filter(|t| matches!(t.status, Status::Foreign)).map(|t| t.os_tid).collect();
+                if now == pending {
+                    return st;
+                }
+            }
+        }
+    }
+
+    /// Lock the state as simulated thread `me`, which believes it is running. If the monitor took the baton away while
+    /// `me` was asleep outside the simulator, `me` becomes runnable again and waits here until it is scheduled.
+    fn enter(&self, me: Tid) -> MutexGuard<'_, State> {
+        let mut st = self.lock();
+        if matches!(st.threads[me].status, Status::Foreign) {
+            st.threads[me].status = Status::Runnable;
+            let cv = st.threads[me].cv.clone();
+            while st.current != me && st.failure.is_none() {
+                // (whoever runs picks us at one of its choice points; see `settle_foreign`)
+                st = cv.wait(st).unwrap_or_else(|e| e.into_inner());
+            }
+            if st.failure.is_some() {
+                drop(st);
+                park_forever();
+            }
+        }
+        st
     }
 }
 
@@ -583,12 +637,13 @@ fn check_limits<'a>(sim: &'a Sim, st: MutexGuard<'a, State>) -> MutexGuard<'a, S
 /// A plain scheduling point (the thread stays runnable).
 pub fn sched_point(site: u64) {
     let Some((sim, me)) = ctx() else { return };
-    let mut st = sim.lock();
+    let mut st = sim.enter(me);
     debug_assert_eq!(st.current, me, "thread running without the baton");
     st.steps += 1;
     GLOBAL_STEPS.fetch_add(1, Ordering::Relaxed);
     st.threads[me].last_site = site;
     st = check_limits(&sim, st);
+    st = sim.settle_foreign(st);
     let next = st.choose(Some(me), me, site).expect("current thread is runnable");
     let _st = switch_and_wait(&sim, st, me, next);
 }
@@ -598,7 +653,7 @@ pub fn block_on(key: u64, deadline: Option<u64>, site: u64) -> Wake {
     let Some((sim, me)) = ctx() else {
         panic!("detsim::block_on outside a simulation")
     };
-    let mut st = sim.lock();
+    let mut st = sim.enter(me);
     debug_assert_eq!(st.current, me);
     st.steps += 1;
     GLOBAL_STEPS.fetch_add(1, Ordering::Relaxed);
@@ -628,6 +683,7 @@ fn hand_off<'a>(
     finished: bool,
 ) -> MutexGuard<'a, State> {
     loop {
+        st = sim.settle_foreign(st);
         match st.choose(None, me, site) {
             Some(next) => {
                 if finished {
@@ -921,6 +977,7 @@ where
             priority: prio,
             consecutive: 0,
             last_site: 0,
+            os_tid: 0,
         });
         let _ = me;
     }
@@ -941,6 +998,7 @@ where
     // wait for the baton
     {
         let mut st = sim.lock();
+        st.threads[tid].os_tid = unsafe { libc::syscall(libc::SYS_gettid) } as i32;
         let cv = st.threads[tid].cv.clone();
         while st.current != tid {
             st = cv.wait(st).unwrap_or_else(|e| e.into_inner());
@@ -952,7 +1010,7 @@ where
     }
     let r = std::panic::catch_unwind(std::panic::AssertUnwindSafe(f));
     // finished
-    let mut st = sim.lock();
+    let mut st = sim.enter(tid);
     if st.failure.is_some() {
         drop(st);
         park_forever();
@@ -987,6 +1045,105 @@ pub fn panic_message(e: &Box<dyn std::any::Any + Send>) -> String {
     } else {
         "<non-string panic payload>".to_string()
     }
+}
+
+/// The simulation that is running in this process right now (for the monitor).
+static ACTIVE_SIM: StdMutex<Option<std::sync::Weak<Sim>>> = StdMutex::new(None);
+/// Milliseconds without a scheduling step after which the monitor looks at the baton holder (0 = monitor off).
+static FOREIGN_AFTER_MS: AtomicU64 = AtomicU64::new(300);
+
+/// Switch the foreign-block monitor off (0) or set its patience in milliseconds.
+pub fn set_foreign_block_patience_ms(ms: u64) {
+    FOREIGN_AFTER_MS.store(ms, Ordering::Relaxed);
+}
+
+fn os_thread_asleep(os_tid: i32) -> bool {
+    // /proc/self/task/<tid>/stat: "<tid> (<comm>) <state> ..."; S = interruptible sleep (futex wait, ...)
+    match std::fs::read_to_string(format!("/proc/self/task/{os_tid}/stat")) {
+        Ok(s) => s.rfind(") ").and_then(|i| s[i + 2..].chars().next()).map(|c| c == 'S').unwrap_or(false),
+        Err(_) => false,
+    }
+}
+
+/// One process-wide monitor thread: when a run makes no scheduling step for a while although a simulated thread holds
+/// the baton, and that thread is asleep in the kernel, it is blocked in something the simulator does not own (a lock
+/// without a shim: held by a descheduled simulated thread, or taken twice by this one). The real world would simply run
+/// the other threads; so does the monitor: the sleeper is marked `Foreign` and the baton goes to somebody else. When
+/// the sleeper wakes up it queues for the baton at its next scheduling point. If nobody can run any more the run ends
+/// as a deadlock, with the sleeper in the list.
+fn start_monitor() {
+    static STARTED: std::sync::Once = std::sync::Once::new();
+    STARTED.call_once(|| {
+        let _ = std::thread::Builder::new().name("detsim-monitor".into()).spawn(|| {
+            let mut last_steps = GLOBAL_STEPS.load(Ordering::Relaxed);
+            let mut since = std::time::Instant::now();
+            let mut asleep_samples = 0u32;
+            loop {
+                std::thread::sleep(std::time::Duration::from_millis(50));
+                let patience = FOREIGN_AFTER_MS.load(Ordering::Relaxed);
+                let steps = GLOBAL_STEPS.load(Ordering::Relaxed);
+                if patience == 0 || !RUN_ACTIVE.load(Ordering::Relaxed) || steps != last_steps {
+                    last_steps = steps;
+                    since = std::time::Instant::now();
+                    asleep_samples = 0;
+                    continue;
+                }
+                if (since.elapsed().as_millis() as u64) < patience {
+                    continue;
+                }
+                let Some(sim) = ACTIVE_SIM.lock().ok().and_then(|g| g.as_ref().and_then(|w| w.upgrade())) else { continue };
+                let mut st = sim.lock();
+                if st.failure.is_some() || st.finished_all || GLOBAL_STEPS.load(Ordering::Relaxed) != steps {
+                    continue;
+                }
+                let cur = st.current;
+                if !matches!(st.threads[cur].status, Status::Runnable) || st.threads[cur].os_tid == 0 || !os_thread_asleep(st.threads[cur].os_tid) {
+                    asleep_samples = 0;
+                    continue;
+                }
+                asleep_samples += 1;
+                if asleep_samples < 2 {
+                    continue;
+                }
+                asleep_samples = 0;
+                // the baton holder sleeps outside the simulator: go on without it
+                st.threads[cur].status = Status::Foreign;
+                st.foreign_blocks += 1;
+                let site = st.threads[cur].last_site;
+                loop {
+                    match st.choose(None, cur, site) {
+                        Some(next) => {
+                            st.current = next;
+                            st.threads[next].cv.notify_one();
+                            break;
+                        }
+                        None => {
+                            let earliest = st.threads.iter().filter_map(|t| match t.status { Status::Blocked { deadline: Some(d), .. } => Some(d), _ => None }).min();
+                            match earliest {
+                                Some(d) => {
+                                    if d > st.clock {
+                                        st.clock = d;
+                                    }
+                                    st.wake_expired();
+                                }
+                                None => {
+                                    let live = live_list(&st);
+                                    if st.failure.is_none() {
+                                        st.failure = Some(Failure::Deadlock { live });
+                                    }
+                                    sim.done.notify_all();
+                                    break;
+                                }
+                            }
+                        }
+                    }
+                }
+                GLOBAL_STEPS.fetch_add(1, Ordering::Relaxed);
+                last_steps = GLOBAL_STEPS.load(Ordering::Relaxed);
+                since = std::time::Instant::now();
+            }
+        });
+    });
 }
 
 /// Run `f` as simulated thread 0 under the given configuration. Returns when every simulated
@@ -1043,6 +1200,7 @@ where
             priority: prio0,
             consecutive: 0,
             last_site: 0,
+            os_tid: 0,
         }],
         current: 0,
         clock: start,
@@ -1076,11 +1234,16 @@ where
         trace: vec![],
         parked: vec![],
         site_parks: 0,
+        foreign_blocks: 0,
     };
     if trace_on {
         enable_site_names();
     }
     let sim = Arc::new(Sim { st: StdMutex::new(st), done: Condvar::new() });
+    if let Ok(mut g) = ACTIVE_SIM.lock() {
+        *g = Some(Arc::downgrade(&sim));
+    }
+    start_monitor();
     let sim2 = sim.clone();
     let h = std::thread::Builder::new()
         .name("sim-main".into())
@@ -1110,6 +1273,7 @@ where
         blocks: st.blocks,
         stall_steps: st.stall_steps,
         site_parks: st.site_parks,
+        foreign_blocks: st.foreign_blocks,
         preemptions: st.preemptions,
         trace: std::mem::take(&mut st.trace),
     };
